@@ -182,8 +182,16 @@ def run_impl(binary, scn, strace=None, inject=None, timeout=20, with_mtime=False
         sin = scn.get("stdin")
         timed_out = False
         try:
-            p = subprocess.run(cmd, cwd=work, env=env, input=sin if sin is not None else b"", capture_output=True,
-                               timeout=timeout, preexec_fn=pre)
+            if scn.get("stdin_is") == "dir":
+                # standard input is a directory: every read(2) fails with EISDIR
+                dfd = os.open(work, os.O_RDONLY)
+                try:
+                    p = subprocess.run(cmd, cwd=work, env=env, stdin=dfd, capture_output=True, timeout=timeout, preexec_fn=pre)
+                finally:
+                    os.close(dfd)
+            else:
+                p = subprocess.run(cmd, cwd=work, env=env, input=sin if sin is not None else b"", capture_output=True,
+                                   timeout=timeout, preexec_fn=pre)
             rc, out, err = p.returncode, p.stdout, p.stderr
         except subprocess.TimeoutExpired as e:
             timed_out = True
